@@ -85,6 +85,25 @@ def run(ctx: common.Run):
         check_circuit(ctx, cirq, rng, circuit, qids, mode)
         if mode == 'qubit' and i % 2 == 0:
             check_sweep(ctx, cirq, rng, circuit, qids)
+    # the classical simulator on qudit gates: either it refuses the operation or the basis state it reports is the one the
+    # operation's matrix maps the input to
+    for d in (3, 4):
+        for e in (1, 2, 3, d, 2 * d, -1):
+            for k0 in range(d):
+                qd = cirq.LineQid(0, d)
+                gate = cirq.XPowGate(dimension=d) ** e
+                ctx.count('entry', 'ClassicalStateSimulator:qudit')
+                try:
+                    res = cirq.ClassicalStateSimulator().simulate(cirq.Circuit(gate.on(qd)), initial_state=[k0], qubit_order=[qd])
+                except (ValueError, TypeError):
+                    ctx.count('classical_qudit', 'refused')
+                    continue
+                got = int(res._final_simulator_state._state.basis[0])
+                want = int(np.argmax(np.abs(cirq.unitary(gate)[:, k0])))
+                ctx.case(['classical-qudit', d, e, k0], True)
+                if got != want:
+                    ctx.report_witness('entry:ClassicalStateSimulator:qudit', 'ClassicalStateSimulator reports a basis state different from the image under the operation\'s matrix',
+                                       {'lines': [{'gate': repr(gate), 'initial': k0}], 'impl_out': [got], 'spec_out': [want], 'theorem_or_correspondence': 'applyOps (basis state)'})
 
 
 def check_circuit(ctx, cirq, rng, circuit, qids, mode):
